@@ -7,6 +7,27 @@ import sys
 VERIF = os.path.dirname(os.path.dirname(os.path.abspath(__file__)))
 sys.path.insert(0, VERIF)
 
+# sentences added to the descriptions after the seeded-change rounds (DESIGN.md §8): what each check additionally generates now
+ADDED = {
+  "C01": " Also spatial tendons with 2-4 branches separated by pulleys.",
+  "C04": " Also planes on a static body declared after the moving bodies (highest geom id) with a laterally offset origin and optional tilt.",
+  "C06": " Also contact-only free-body scenes solved for 2-4 states on one Data (rows appear and vanish; sleep flag on/off): qacc vs MuJoCo for row-free worlds and matching rows, re-solved vs fresh Data otherwise; explicit plane-geom pairs with anisotropic friction.",
+  "C07": " Three extra frame sensors per case walk systematically through kind x objtype x reftype (175 combinations).",
+  "C09": " A third of the cases run with sleeping enabled and a different set of islands asleep in every world (tree_awake / tree_asleep compared).",
+  "C11": " Models include jointless root bodies with several jointed children and mocap bodies.",
+  "C16": " Optionally a solver iteration limit of 1-3, so that the ITERATIONS report and a capacity bit share one overflow word.",
+  "C17": " One case in six has 5-8 trees densely linked by 10-18 equalities with sleeping and islands (island discovery work lists).",
+  "C19": " 0-3 distance/normal/fromto sensors on drawn geom/body pairs (they keep filtered pairs in the broadphase list); only constraint contacts enter the pair set.",
+  "C24": " Also contact-only free-body scenes evaluated for 2-4 states on one Data (rows appear and vanish; sleep flag on/off); explicit plane-geom pairs with anisotropic friction.",
+  "C25": " A third of the cases use per-world (batched) solver tolerances: each world must stop where it stops when every world gets its tolerance.",
+  "C30": " One case in eight is a closed-form 'ticks' case (interval = k*timestep, buffered, delayed) that pins the sample schedule step by step.",
+  "C35": " A third of the scenes contain a tiny flex far outside the view (its primitives share the scene BVH).",
+  "C36": " Every program runs all 31 one-dimension variants of its subject (integrator/solver/cone/jacobian, 18 flags incl. SLEEP, broadphase type and filter, warn_overflow, fluid, capacities, inventory, state) before the subject; items with the sleep flag start with sleeping islands.",
+  "C38": " Histories on one Data: all awake -> subset -> all awake, and (DOF capacity below nv) complementary subset -> subset, each compared with the fresh-Data solve.",
+  "C39": " Explicit plane-geom pairs with anisotropic friction are generated.",
+  "C40": " One case in four is a hand-written <deformable><flex> over free/ball/hinge bodies in separate trees; flex and geom contact priorities and a geom condim of its own are drawn.",
+}
+
 # id -> (technique, level text, level note, design ref)
 TABLE = {}
 
@@ -363,7 +384,7 @@ def main():
           evidence_file=f"/verif/evidence/{pid}.json",
           replay_cmd_template=f"/venv/bin/python -m vf.check {pid} --replay {{path}}",
           engine="vf",
-          level_claimed=dict(category="exploration", text=t["text"], design_ref=t["ref"]),
+          level_claimed=dict(category="exploration", text=t["text"] + ADDED.get(pid, ""), design_ref=t["ref"]),
           level_note=t["note"],
           technique=t["technique"],
         )
